@@ -8,3 +8,4 @@ import PK.Properties.C12
 #print axioms PK.C12_shown_dominated
 #print axioms PK.kill_fold
 #print axioms PK.C12_lone_not_killed
+#print axioms PK.C12_lone_showdown_stops
